@@ -15,12 +15,13 @@ theorem run_build_getBytes (p : Nat) (ws : Array Nat) (r : Bytes) (hp : p ≤ 30
   rw [List.append_assoc, P.run_bind_some _ _ _ _ _ (run_rdU 4 p _ (by simp only [Nat.reducePow]; omega))]
   rw [List.append_assoc, P.run_bind_some _ _ _ _ _ (run_rdI 4 (ws.size : Int) _
       ((inRange_4 _).mpr (by omega)))]
-  have hn : ¬ (((ws.size : Int) < 0) ∨ 30 < p) := by omega
+  have hn : ¬ ((ws.size : Int) < 0) := by omega
   rw [if_neg hn, Int.toNat_natCast]
   have hlen : ws.size = ws.toList.length := by simp
   rw [hlen]
   rw [P.run_bind_some _ _ _ _ _ (run_decMany (beN 4) (rdU 4) (fun w => w < 4294967296)
       (fun x r hx => run_rdU 4 x r (by simp only [Nat.reducePow]; exact hx)) ws.toList r hw)]
+  rw [if_neg (by omega)]
   simp
 
 theorem getBytes_length (p : Nat) (ws : Array Nat) : (getBytes p ws).length = 8 + 4 * ws.size := by
